@@ -362,30 +362,29 @@ class AardvarkRig(object):
         return list(self.s.sent)
 
 
-def run_i2c(rig, req, events):
-    """One request on an IpmbDevRig / AardvarkRig."""
+def run_i2c(rig, req, events, target=None):
+    """One request on an IpmbDevRig / AardvarkRig (`target`: a ready-made Target object instead of
+    Target(req['rs_sa'], routing=req.get('routing')))."""
     rig.s.script = [list(e) for e in events]
     rig.s.sent = []
     rig.s.consumed = 0
     rig.s.pending = None
     rig.clock.sleeps = []
-    from pyipmi import Target
-    tgt = Target(req['rs_sa'])
+    tgt = target if target is not None else make_target(req['rs_sa'], req.get('routing'))
     raw = bytes([req['cmd']]) + bytes.fromhex(req.get('payload', ''))
     out = _outcome(lambda: rig.iface.send_and_receive_raw(tgt, req['lun'], req['netfn'], raw))
     return {'out': out, 'tx': rig.tx_frames(), 'consumed': rig.s.consumed,
             'seq': rig.iface.next_sequence_number, 'sleeps': list(rig.clock.sleeps)}
 
 
-def run_i2c_probe(rig, rs_sa, events):
-    """`is_ipmc_accessible(Target(rs_sa))` on an IpmbDevRig / AardvarkRig: one request/response exchange."""
+def run_i2c_probe(rig, rs_sa, events, routing=None, target=None):
+    """`is_ipmc_accessible(Target(rs_sa[, routing]))` on an IpmbDevRig / AardvarkRig: one request/response exchange."""
     rig.s.script = [list(e) for e in events]
     rig.s.sent = []
     rig.s.consumed = 0
     rig.s.pending = None
     rig.clock.sleeps = []
-    from pyipmi import Target
-    tgt = Target(rs_sa)
+    tgt = target if target is not None else make_target(rs_sa, routing)
 
     def probe():
         r = rig.iface.is_ipmc_accessible(tgt)
